@@ -553,32 +553,37 @@ def ow4(ctx, R):
             "an offset array shared between channels is modified in place in %s" % (muts[0][0].qual if muts else ""))
     # one-chunk cache
     from .region import region
-    from .sem import leaves, flat_conds, match, W, find, norm_items
-    from .sym import Sym, show
     fi = prog.func("tdms.TdmsChannel._read_at_index")
-    ch = fi.cls
+    cm = chunk_cache_model(ctx, fi)
     reg = {f.qual for f in region(ctx, fi, depth=2)}
+    K = cm["owner"]
+    state = cm["state"]
 
     def stores_attr(n, name):
         return n.kind == "stmt" and isinstance(n.ast, ast.Assign) and any(
             isinstance(t, ast.Attribute) and dotted(t.value) == "self" and t.attr == name for t in n.ast.targets)
-    writers = [m for m in ch.methods.values() if m.name != "__init__" and any(
-        isinstance(n, ast.Assign) and any(isinstance(t, ast.Attribute) and t.attr in ("_cached_chunk", "_cached_chunk_bounds") for t in n.targets)
-        for n in walk_body(m.node))]
+
+    def assigns_state(f2, own):
+        return any(isinstance(n, ast.Assign) and any(isinstance(t, ast.Attribute) and t.attr in state and (dotted(t.value) == "self") == own for t in n.targets)
+                   for n in walk_body(f2.node))
+    writers = [m for m in K.methods.values() if m.name != "__init__" and assigns_state(m, True)]
     if not writers:
-        raise AnchorMissing("tdms.TdmsChannel: stores of the one-chunk cache")
+        raise AnchorMissing("%s: stores of the one-chunk cache (%s)" % (K.qual, sorted(state)))
     for w in writers:
         cfg = ctx.cfg(w)
-        for a, b in (("_cached_chunk", "_cached_chunk_bounds"), ("_cached_chunk_bounds", "_cached_chunk")):
-            for n in cfg.where(lambda n: stores_attr(n, a)):
-                ok1, _ = cfg.always_passes(n, lambda m: stores_attr(m, b), targets={cfg.exit}, follow_exc=False)
-                ok2, _ = cfg.dominated_by(n, lambda m: stores_attr(m, b))
-                R.check(ok1 or ok2, "tdms.TdmsChannel::%s with %s" % (a, b), w.where(n.ast),
-                        "the cached chunk and its bounds are assigned together", "self.%s is assigned without self.%s on some path: "
-                        "the bounds would then describe another chunk" % (a, b))
+        for a in sorted(state):
+            for b in sorted(state):
+                if a == b:
+                    continue
+                for n in cfg.where(lambda n: stores_attr(n, a)):
+                    ok1, _ = cfg.always_passes(n, lambda m: stores_attr(m, b), targets={cfg.exit}, follow_exc=False)
+                    ok2, _ = cfg.dominated_by(n, lambda m: stores_attr(m, b))
+                    R.check(ok1 or ok2, "%s::%s with %s" % (K.qual, a, b), w.where(n.ast),
+                            "the cached chunk and its bounds are assigned together", "self.%s is assigned without self.%s on some path: "
+                            "the bounds would then describe another chunk" % (a, b))
     cg = ctx.callgraph()
-    others = [w.qual for w in writers if w.qual not in reg] + [f2.qual for f2 in prog.functions.values() if f2.cls is not ch and f2.name != "__init__" and any(
-        isinstance(n, ast.Assign) and any(isinstance(t, ast.Attribute) and t.attr in ("_cached_chunk", "_cached_chunk_bounds") for t in n.targets)
+    others = [f2.qual for f2 in prog.functions.values() if f2.cls is not K and f2.name != "__init__" and any(
+        isinstance(n, ast.Assign) and any(isinstance(t, ast.Attribute) and t.attr in state and dotted(t.value) != "self" for t in n.targets)
         for n in walk_body(f2.node))]
     for w in writers:
         if w is not fi:
@@ -590,18 +595,31 @@ def ow4(ctx, R):
     _cache_hit_test(ctx, R, fi)
 
 
-def _cache_hit_test(ctx, R, fi):
-    """In normal form, every result served from the cached chunk is selected by conditions that bound the (normalised) index
-    on both sides by the cached chunk's start and end, and is taken at index - start."""
-    from .sem import leaves, flat_conds, match, W, find, norm_items
-    from .sym import Sym, show
+def _is_field(t):
+    return isinstance(t, tuple) and ((len(t) == 2 and t[0] == "self") or (len(t) == 3 and t[0] == "attr" and _is_field(t[1])))
+
+
+def _root_field(t):
+    """the field a term is read from: self.x[0] -> self.x"""
+    while isinstance(t, tuple) and t and t[0] in ("item", "sub"):
+        t = t[1]
+    return t if _is_field(t) else None
+
+
+def chunk_cache_model(ctx, fi=None):
+    """The one-chunk cache of integer indexing, discovered from the normal form of _read_at_index: results of the form V[I - S]
+    where V is a field (of the channel or of a helper object it keeps in a field).  -> dict(hits=[(conds, V, I, S)], V=, owner=class
+    owning the fields, state={field names: values, start, end}, value=normal form)"""
+    from .sem import leaves, flat_conds, match, W, norm_items
+    from .sym import Sym
+    from .callgraph import field_classes
     prog = ctx.prog
-    P = ("param", fi.params[1] if len(fi.params) > 1 else "index")
+    fi = fi or prog.func("tdms.TdmsChannel._read_at_index")
+    if getattr(ctx, "_cache_model", None) is not None and ctx._cache_model[0] is fi:
+        return ctx._cache_model[1]
     v = norm_items(Sym(prog, fi, fi.cls).function_value())
     if v[0] == "opaque":
         raise AnchorMissing("tdms.TdmsChannel._read_at_index: body in normal form")
-    B = ("self", "_cached_chunk_bounds")
-    B0, B1 = ("item", B, 0), ("item", B, 1)
     hits = []
 
     def walk(val, conds):
@@ -610,23 +628,84 @@ def _cache_hit_test(ctx, R, fi):
                 # indexing distributes over a conditional base
                 for cs2, base in leaves(leaf[1], cs):
                     walk(("sub", base, leaf[2]), cs2)
-            elif leaf[0] == "sub" and leaf[1] == ("self", "_cached_chunk"):
-                hits.append((cs, leaf[2]))
+            elif leaf[0] == "sub" and _is_field(leaf[1]):
+                hits.append((cs, leaf[1], leaf[2]))
     walk(v, ())
     if not hits:
         raise AnchorMissing("tdms.TdmsChannel._read_at_index: return from the cached chunk")
-    for conds, K in hits:
+    V = hits[0][1]
+    if any(h[1] != V for h in hits):
+        raise AnchorMissing("tdms.TdmsChannel._read_at_index: one cached chunk (found %d different fields)" % len({h[1] for h in hits}))
+    if V[0] == "self":
+        owner, prefix = fi.cls, None
+    else:
+        fc = field_classes(prog, fi.cls).get(V[1][1]) if V[1][0] == "self" else None
+        if not fc:
+            raise AnchorMissing("tdms.TdmsChannel._read_at_index: class of the object holding the cached chunk")
+        owner, prefix = fc[0], V[1]
+    state = {V[-1]}
+    out_hits = []
+    for conds, _v, K in hits:
+        m = match(("binop", "-", (W("I"), W("S"))), K)
+        I, S = (m["I"], m["S"]) if m else (None, None)
+        out_hits.append((conds, K, I, S))
+        if S is not None and _root_field(S) is not None:
+            state.add(_root_field(S)[-1])
+        if I is not None:
+            for c in flat_conds(conds):
+                if isinstance(c, tuple) and len(c) == 4 and c[0] == "cmp" and c[1] in ("<", ">", "<=", ">="):
+                    for t in (c[2], c[3]):
+                        rf = _root_field(t)
+                        if rf is not None and t != I and (rf[1] if rf[0] == "attr" else None) == prefix and (c[2] == I or c[3] == I):
+                            state.add(rf[-1])
+    # does a call that (re)writes the cache state precede a return that serves from the cache?  Then the conditions of that
+    # result in the normal form are not the hit test (the normal form does not model the update of the fields by the call)
+    from .region import call_reaches
+    from .cfg import node_calls
+    writers = {m.qual for m in owner.methods.values() if m.name != "__init__" and any(
+        isinstance(n, ast.Assign) and any(isinstance(t, ast.Attribute) and dotted(t.value) == "self" and t.attr in state for t in n.targets)
+        for n in walk_body(m.node))} - {fi.qual}
+    refilled = False
+    if writers:
+        cfg = ctx.cfg(fi)
+        sy = Sym(prog, fi, fi.cls)
+        wnodes = cfg.where(lambda n: any(call_reaches(ctx, fi, c, writers) for c in node_calls(n)))
+        after = cfg.reach([m for w in wnodes for m, k in w.succ if k not in ("exc", "uncaught")], follow_exc=False) if wnodes else set()
+        for n in cfg.where(lambda n: n.kind == "return" and n.ast.value is not None):
+            if n in after:
+                env, _g = sy.env_at(n.ast)
+                rv = norm_items(sy.expr(n.ast.value, env))
+                if rv[0] == "sub" and rv[1] == V:
+                    refilled = True
+    model = dict(hits=out_hits, V=V, owner=owner, prefix=prefix, state=state, value=v, fi=fi, refilled=refilled)
+    ctx._cache_model = (fi, model)
+    return model
+
+
+def _cache_hit_test(ctx, R, fi):
+    """In normal form, every result served from the cached chunk is selected by conditions that bound the (normalised) index
+    on both sides by the cached chunk's start and end, and is taken at index - start."""
+    from .sem import flat_conds, find, W
+    from .sym import show
+    cm = chunk_cache_model(ctx, fi)
+    P = ("param", fi.params[1] if len(fi.params) > 1 else "index")
+    for conds, K, I, S in cm["hits"]:
         fc = flat_conds(conds)
         key = "tdms.TdmsChannel._read_at_index::cache hit test"
-        m = match(("binop", "-", (W("I"), B0)), K)
-        if m is None:
+        if I is None or _root_field(S) is None:
             R.undecided(key, fi.where(), "position in the cached chunk `%s` not understood" % show(K)[:100])
             continue
-        I = m["I"]
-        lower = ("cmp", "<=", B0, I) in fc or ("cmp", ">=", I, B0) in fc
-        upper = ("cmp", "<", I, B1) in fc or ("cmp", ">", B1, I) in fc
+        lower = ("cmp", "<=", S, I) in fc or ("cmp", ">=", I, S) in fc
+        ends = [c[3] if c[2] == I else c[2] for c in fc if isinstance(c, tuple) and len(c) == 4 and c[0] == "cmp" and (
+            (c[1] == "<" and c[2] == I) or (c[1] == ">" and c[3] == I))]
+        ends = [e for e in ends if _root_field(e) is not None and e != S and (_root_field(e)[1] if _root_field(e)[0] == "attr" else None) == cm["prefix"]
+                and _root_field(e)[-1] in cm["state"]]
+        upper = bool(ends)
         if lower and upper:
             R.ok(key, fi.where(), "the hit test bounds the index from below and above by the cached bounds")
+        elif cm["refilled"]:
+            R.undecided(key, fi.where(), "the value is served from the cache after a call that may have refilled it: the update of the cache fields by that "
+                        "call is not modelled, so the conditions of this result are not the hit test")
         else:
             R.violation(key, fi.where(), "the value is served from the cached chunk under a test that does not bound the index %s: an index "
                         "outside the cached chunk would be answered from it (result depends on what was read before). Conditions: %s" % (
